@@ -10,6 +10,7 @@ import (
 	"context"
 	"fmt"
 	"strconv"
+	"strings"
 	"testing"
 
 	"github.com/google/gce-tcb-verifier/gcetcbendorsement"
@@ -124,20 +125,56 @@ func TestSnpDirect(t *testing.T) {
 	})
 }
 
-const digestRule = "an endorsed table with a 48-byte firmware digest; the report carries a measurement that is endorsed for the requested count (so that the digest decides) x expected digest supplied by the caller {equal, one bit off, proper prefix of 1-47 bytes (32 = a SHA-256-sized value), the digest plus extra bytes, random 48 / 32 / 1 bytes} or not supplied {nil, length 0} x entry {validator closure with serialized endorsement, validator closure with Options.Endorsement, verify.EndorsementProto, verify.Endorsement}; oracle: expected digest supplied (length > 0) and accepted => byte-equal to the endorsed digest; a rejection with the equal digest is counted as inconclusive; non-trivial = a digest is supplied; distinct = (entry, digest shape, request class, length)"
+const digestRule = "an endorsed table with a 48-byte firmware digest x endorsement sections {SNP + TDX, SNP only, TDX only (no SNP section, 1 in 6), neither} x the caller's technology options {SNP options with the report's measurement and the requested count (the measurement is endorsed for that count, so that the digest decides), NO SNP options at all (Options.SNP nil: a caller that only pins the firmware binary, or a TDX-side caller), empty SNP options, a count without a measurement} x expected digest supplied by the caller {equal, one bit off, proper prefix of 1-47 bytes (32 = a SHA-256-sized value), the digest plus extra bytes, random 48 / 32 / 1 bytes} or not supplied {nil, length 0} x entry {validator closure with serialized endorsement, validator closure with Options.Endorsement (closures built with a count, with nil and with empty SNP options), verify.EndorsementProto, verify.Endorsement}; oracle: expected digest supplied (length > 0) and accepted => byte-equal to the endorsed digest, whatever else the options name and whatever sections the endorsement has; a rejection with the equal digest where nothing else can object is counted as inconclusive; non-trivial = a digest is supplied; distinct = (entry, options shape, sections, digest shape, request class, length)"
+
+// digestKey names the root cause: with SNP options present the comparison itself is broken or
+// dropped; without them the comparison is skipped for callers that name no technology options.
+func digestKey(optKind string) string {
+	if optKind == "snp=nil" {
+		return "C02/digest/mismatch-accepted-without-snp-options"
+	}
+	return "C02/snp/digest-mismatch-accepted"
+}
+
+// snpOptions renders the drawn options shape for the direct entries (measurement goes into the
+// options) and for the closure (the measurement comes from the report).
+func snpOptions(optKind string, direct bool, value []byte, n uint32) *verify.SNPOptions {
+	switch optKind {
+	case "snp=nil":
+		return nil
+	case "snp=empty":
+		return &verify.SNPOptions{}
+	case "snp=count-only":
+		return &verify.SNPOptions{ExpectedLaunchVMSAs: n}
+	}
+	if direct {
+		return &verify.SNPOptions{Measurement: value, ExpectedLaunchVMSAs: n}
+	}
+	return &verify.SNPOptions{ExpectedLaunchVMSAs: n}
+}
 
 func TestDigest(t *testing.T) {
 	const name = "digest"
 	world()
 	ev.Rule(name, digestRule)
-	checks(ev.Scale(800, 8000))
-	entries := []string{"closure", "closure/options-endorsement", "EndorsementProto", "Endorsement"}
+	checks(ev.Scale(1200, 12000))
+	entries := []string{"closure", "closure/options-endorsement", "EndorsementProto", "EndorsementProto", "Endorsement", "Endorsement"}
 	shapes := []string{"equal", "equal", "one-bit-off", "prefix", "prefix", "prefix-32", "extended", "random-48", "random-32", "random-1", "nil", "len0"}
+	directOpts := []string{"snp=given", "snp=given", "snp=nil", "snp=nil", "snp=empty", "snp=count-only"}
+	closureOpts := []string{"snp=given", "snp=given", "snp=nil", "snp=empty"}
 	rapid.Check(t, func(t *rapid.T) {
 		tb := genTable(t)
-		tb.hasSnp = true
-		if len(tb.snp) == 0 {
+		tb.hasSnp = rapid.IntRange(0, 5).Draw(t, "noSnpSection") != 5
+		if !tb.hasSnp {
+			tb.snp, tb.svsm = map[uint32][]byte{}, nil
+		} else if len(tb.snp) == 0 {
 			tb.snp[rapid.SampledFrom(vmsaCounts[1:]).Draw(t, "forcedCount")] = tb.fresh(t, "forcedMeas")
+		}
+		sections := map[bool]string{true: "snp", false: ""}[tb.hasSnp]
+		if tb.hasTdx {
+			sections += map[bool]string{true: "+tdx", false: "tdx-only"}[tb.hasSnp]
+		} else if !tb.hasSnp {
+			sections = "none"
 		}
 		// a listed count >= 2 or no count: the endorsed value is then accepted by every entry on the
 		// pinned tree, and the digest alone decides
@@ -151,8 +188,12 @@ func TestDigest(t *testing.T) {
 		if len(listed) > 0 && rapid.Bool().Draw(t, "named") {
 			n, ncls = listed[rapid.IntRange(0, len(listed)-1).Draw(t, "listed")], "count=listed"
 		}
-		allowed := tb.allowedSnp(n)
-		value := allowed[rapid.IntRange(0, len(allowed)-1).Draw(t, "which")]
+		var value []byte
+		if allowed := tb.allowedSnp(n); len(allowed) > 0 {
+			value = allowed[rapid.IntRange(0, len(allowed)-1).Draw(t, "which")]
+		} else {
+			value = rapid.SliceOfN(rapid.Byte(), 48, 48).Draw(t, "unendorsed")
+		}
 		shape := rapid.SampledFrom(shapes).Draw(t, "digestShape")
 		var want []byte
 		switch shape {
@@ -177,24 +218,35 @@ func TestDigest(t *testing.T) {
 			want = []byte{}
 		}
 		entry := rapid.SampledFrom(entries).Draw(t, "entry")
+		direct := entry == "EndorsementProto" || entry == "Endorsement"
+		optKind := ""
+		if direct {
+			optKind = rapid.SampledFrom(directOpts).Draw(t, "snpOptions")
+			if optKind == "snp=count-only" && n == 0 {
+				optKind = "snp=empty"
+			}
+		} else {
+			optKind = rapid.SampledFrom(closureOpts).Draw(t, "snpOptions")
+		}
+		so := snpOptions(optKind, direct, value, n)
 		e := pki.Endorse(tb.golden(), signCert.Raw, pki.Key(1))
 		eb, _ := proto.Marshal(e)
 		var err error
 		var pan any
 		switch entry {
 		case "closure":
-			f := verify.SNPValidateFunc(&verify.Options{RootsOfTrust: pool, Now: t0, ExpectedUefiSha384: want, SNP: &verify.SNPOptions{ExpectedLaunchVMSAs: n}})
+			f := verify.SNPValidateFunc(&verify.Options{RootsOfTrust: pool, Now: t0, ExpectedUefiSha384: want, SNP: so})
 			err, pan = recoverCall(func() error { return f(attest.SnpAttestation(value, nil), eb) })
 		case "closure/options-endorsement":
-			f := verify.SNPValidateFunc(&verify.Options{RootsOfTrust: pool, Now: t0, ExpectedUefiSha384: want, Endorsement: e, SNP: &verify.SNPOptions{ExpectedLaunchVMSAs: n}})
+			f := verify.SNPValidateFunc(&verify.Options{RootsOfTrust: pool, Now: t0, ExpectedUefiSha384: want, Endorsement: e, SNP: so})
 			err, pan = recoverCall(func() error { return f(attest.SnpAttestation(value, nil), nil) })
 		case "EndorsementProto":
 			err, pan = recoverCall(func() error {
-				return verify.EndorsementProto(e, &verify.Options{RootsOfTrust: pool, Now: t0, ExpectedUefiSha384: want, SNP: &verify.SNPOptions{Measurement: value, ExpectedLaunchVMSAs: n}})
+				return verify.EndorsementProto(e, &verify.Options{RootsOfTrust: pool, Now: t0, ExpectedUefiSha384: want, SNP: so})
 			})
 		case "Endorsement":
 			err, pan = recoverCall(func() error {
-				return verify.Endorsement(eb, &verify.Options{RootsOfTrust: pool, Now: t0, ExpectedUefiSha384: want, SNP: &verify.SNPOptions{Measurement: value, ExpectedLaunchVMSAs: n}})
+				return verify.Endorsement(eb, &verify.Options{RootsOfTrust: pool, Now: t0, ExpectedUefiSha384: want, SNP: so})
 			})
 		}
 		if pan != nil {
@@ -205,18 +257,125 @@ func TestDigest(t *testing.T) {
 		accepted := err == nil
 		supplied := len(want) > 0
 		if supplied && accepted && !bytes.Equal(want, tb.digest) {
-			ev.Violation(t, "C02/snp/digest-mismatch-accepted", "%s accepted although the caller's expected firmware digest %x (%s, %d bytes) is not the endorsed digest %x", entry, want, shape, len(want), tb.digest)
+			ev.Violation(t, digestKey(optKind), "%s (%s, endorsement sections %s) accepted although the caller's expected firmware digest %x (%s, %d bytes) is not the endorsed digest %x", entry, optKind, sections, want, shape, len(want), tb.digest)
 			return
 		}
-		if !accepted && (shape == "equal" || !supplied) {
-			inconclusive(name, "matching-digest-rejected", "%s rejected an endorsed measurement with digest shape %s: %v", entry, shape, err)
+		// nothing but the digest can object: no technology options, or an SNP section that lists the
+		// report's measurement (a count without a measurement is a documented error)
+		digestDecides := (direct && optKind == "snp=nil") || (tb.hasSnp && optKind != "snp=count-only")
+		if !accepted && digestDecides && (shape == "equal" || !supplied) {
+			inconclusive(name, "matching-digest-rejected", "%s (%s, sections %s) rejected an endorsed measurement with digest shape %s: %v", entry, optKind, sections, shape, err)
 		}
 		outcome := map[bool]string{true: "accept", false: "reject"}[accepted]
-		ev.Case(name, supplied, fmt.Sprintf("%s|%s|%s|%d", entry, shape, ncls, len(want)), shape+"/"+outcome, func() any {
-			return map[string]any{"entry": entry, "digest_shape": shape, "digest_len": len(want), "requested_vmsas": n, "accepted": accepted, "error": errStr(err)}
+		ev.Case(name, supplied, fmt.Sprintf("%s|%s|%s|%s|%s|%d", entry, optKind, sections, shape, ncls, len(want)), shape+"/"+outcome, func() any {
+			return map[string]any{"entry": entry, "snp_options": optKind, "sections": sections, "digest_shape": shape, "digest_len": len(want), "requested_vmsas": n, "accepted": accepted, "error": errStr(err)}
 		})
 		ev.Class(name, "entry:"+entry)
+		ev.Class(name, "options:"+optKind+"/"+map[bool]string{true: "direct", false: "closure"}[direct])
+		ev.Class(name, "sections:"+sections)
+		if supplied && !bytes.Equal(want, tb.digest) {
+			// the judged class: a supplied digest that differs, per options shape
+			ev.Class(name, "mismatch/"+optKind+"/"+outcome)
+			if digestDecides {
+				ev.Class(name, "mismatch-decides/"+optKind+"/sections="+sections)
+			}
+		}
+		if supplied && accepted {
+			ev.Class(name, "equal-accepted/"+optKind)
+		}
 	})
+}
+
+const digestSweepRule = "one signed endorsement (SNP counts 4 and 8, SVSM value, two TDX rows; a second one without SNP section) with a 48-byte firmware digest; expected digest = every one of the 384 one-bit neighbours of the endorsed digest (thorough: also every proper prefix of 1-47 bytes) x entry and options shape {verify.EndorsementProto without SNP options, verify.EndorsementProto without SNP options against the endorsement without SNP section, verify.Endorsement with empty SNP options, validator closure built without SNP options; thorough adds EndorsementProto / Endorsement with the endorsed measurement (with and without its count), the closure with empty options, with a count and with Options.Endorsement}; oracle: every such expected digest is rejected; an entry and shape that rejects the endorsed digest itself is counted as inconclusive and its sweep does not count as non-trivial; exhaustive over the stated space of the tier; distinct = (entry/shape, bit or prefix length)"
+
+// All one-bit neighbours of the endorsed firmware digest per entry point and options shape.
+func TestDigestNeighbours(t *testing.T) {
+	const name = "digest-sweep"
+	world()
+	ev.Rule(name, digestSweepRule)
+	m := bytes.Repeat([]byte{0x42}, 48)
+	m2 := bytes.Repeat([]byte{0x24}, 48)
+	m3 := bytes.Repeat([]byte{0x81}, 48)
+	d := make([]byte, 48)
+	for i := range d {
+		d[i] = byte(0xa5 ^ i)
+	}
+	g := &epb.VMGoldenMeasurement{Timestamp: timestamppb.New(t0), ClSpec: 1, Digest: d,
+		SevSnp: &epb.VMSevSnp{Measurements: map[uint32][]byte{4: m, 8: m2}, SvsmMeasurement: m3, Policy: 0x70000, FamilyId: make([]byte, 16), ImageId: make([]byte, 16)},
+		Tdx:    &epb.VMTdx{Measurements: []*epb.VMTdx_Measurement{{RamGib: 16, Mrtd: m}, {RamGib: 32, Mrtd: m2}}}}
+	gTdx := &epb.VMGoldenMeasurement{Timestamp: timestamppb.New(t0), ClSpec: 1, Digest: d,
+		Tdx: &epb.VMTdx{Measurements: []*epb.VMTdx_Measurement{{RamGib: 16, Mrtd: m}}}}
+	e := pki.Endorse(g, signCert.Raw, pki.Key(1))
+	eTdx := pki.Endorse(gTdx, signCert.Raw, pki.Key(1))
+	eb, _ := proto.Marshal(e)
+	o := func(want []byte, so *verify.SNPOptions) *verify.Options {
+		return &verify.Options{RootsOfTrust: pool, Now: t0, ExpectedUefiSha384: want, SNP: so}
+	}
+	run := map[string]func(want []byte) error{
+		"EndorsementProto/snp=nil":          func(w []byte) error { return verify.EndorsementProto(e, o(w, nil)) },
+		"EndorsementProto/snp=nil/tdx-only": func(w []byte) error { return verify.EndorsementProto(eTdx, o(w, nil)) },
+		"Endorsement/snp=empty":             func(w []byte) error { return verify.Endorsement(eb, o(w, &verify.SNPOptions{})) },
+		"closure/snp=nil": func(w []byte) error {
+			return verify.SNPValidateFunc(o(w, nil))(attest.SnpAttestation(m, nil), eb)
+		},
+		"Endorsement/snp=nil":        func(w []byte) error { return verify.Endorsement(eb, o(w, nil)) },
+		"EndorsementProto/snp=empty": func(w []byte) error { return verify.EndorsementProto(e, o(w, &verify.SNPOptions{})) },
+		"EndorsementProto/snp=measurement": func(w []byte) error {
+			return verify.EndorsementProto(e, o(w, &verify.SNPOptions{Measurement: m}))
+		},
+		"Endorsement/snp=measurement+count": func(w []byte) error {
+			return verify.Endorsement(eb, o(w, &verify.SNPOptions{Measurement: m, ExpectedLaunchVMSAs: 4}))
+		},
+		"closure/snp=empty": func(w []byte) error {
+			return verify.SNPValidateFunc(o(w, &verify.SNPOptions{}))(attest.SnpAttestation(m, nil), eb)
+		},
+		"closure/snp=count": func(w []byte) error {
+			return verify.SNPValidateFunc(o(w, &verify.SNPOptions{ExpectedLaunchVMSAs: 4}))(attest.SnpAttestation(m, nil), eb)
+		},
+		"closure/options-endorsement/snp=nil": func(w []byte) error {
+			op := o(w, nil)
+			op.Endorsement = e
+			return verify.SNPValidateFunc(op)(attest.SnpAttestation(m, nil), nil)
+		},
+	}
+	order := []string{"EndorsementProto/snp=nil", "EndorsementProto/snp=nil/tdx-only", "Endorsement/snp=empty", "closure/snp=nil"}
+	if ev.Tier() == "thorough" {
+		order = append(order, "Endorsement/snp=nil", "EndorsementProto/snp=empty", "EndorsementProto/snp=measurement", "Endorsement/snp=measurement+count", "closure/snp=empty", "closure/snp=count", "closure/options-endorsement/snp=nil")
+	}
+	for _, entry := range order {
+		key := "C02/snp/digest-mismatch-accepted"
+		if strings.Contains(entry, "snp=nil") {
+			key = digestKey("snp=nil")
+		}
+		live := true
+		if err, pan := recoverCall(func() error { return run[entry](d) }); err != nil || pan != nil {
+			inconclusive(name, "matching-digest-rejected", "%s rejected the endorsed digest: %v %v", entry, err, pan)
+			live = false
+		}
+		var wants [][]byte
+		var labels []string
+		for bit := 0; bit < 384; bit++ {
+			w := append([]byte(nil), d...)
+			w[bit/8] ^= 1 << (bit % 8)
+			wants, labels = append(wants, w), append(labels, "bit"+strconv.Itoa(bit))
+		}
+		if ev.Tier() == "thorough" {
+			for l := 1; l < 48; l++ {
+				wants, labels = append(wants, append([]byte(nil), d[:l]...)), append(labels, "prefix"+strconv.Itoa(l))
+			}
+		}
+		for i, w := range wants {
+			err, pan := recoverCall(func() error { return run[entry](w) })
+			if pan == nil && err == nil {
+				ev.Violation(t, key, "%s accepted the expected firmware digest %x (%s of the endorsed digest %x)", entry, w, labels[i], d)
+				break
+			}
+			ev.Case(name, live, entry+labels[i], entry, func() any {
+				return map[string]any{"entry": entry, "expected_digest": labels[i], "accepted": false}
+			})
+		}
+	}
+	ev.Exhaustive(name)
 }
 
 // Plain replays of the two findings of the strengthening round (no generators).
